@@ -64,6 +64,14 @@ def run(ctx) -> None:
                                     getattr(getattr(e, 'exc', None), 'type_name', '?') for e in raised + caught}))
             ctx.check(ok, "C17.R3.faults-propagate", construct, f"fault {what} but the operation returns {Im.expr_of(s.path.value) if s.path.kind == 'return' else ''}"[:160],
                       f"a fault ({what}) ends the operation with an error")
+        if s.path.kind == "return":
+            # a verdict is only ever returned after the input's text went through the parser and the stream was searched
+            parses = s.path.run.user.get("parse_calls", [])
+            scans = [e for e in s.path.events if e.kind == "extern_call" and e.name.startswith("regex.")]
+            from_input = [t for t, _, _ in parses if "INPUT_FILE" in Im.expr_of(t)]
+            ctx.check(bool(from_input) and bool(scans), "C17.R3.verdict-only-after-a-scan", construct,
+                      f"returns {Im.expr_of(s.path.value)[:60]} with {len(from_input)} parse(s) of the input and {len(scans)} search(es)",
+                      "every returning path has parsed the input's text and searched the stream")
     # subprocess is checked and the file existence asserted first
     for s in match_scenarios(Im, file_types=("binary",), return_modes=("bool",), search_modes=("first_find",),
                              only_addrs=(False,), configs=({},)):
